@@ -70,10 +70,10 @@ def mergeValsP (h : Handling) (old : Option Val) (v : Val) : Val :=
       | .sub d2 a2 _ _ =>
         match so with
         | .sub d1 a1 hd1 ha1 =>
-          let d' := if d2.isEmpty then d1 else mergeDictP h (if h = .replace then [] else d1) d2
-          let hd' := if d2.isEmpty then hd1 else true
-          let (a', ha') := arrPolicy h a1 a2 (mergeArrP h a1 a2) ha1
-          .sub d' a' hd' ha'
+          .sub (if d2.isEmpty then d1 else mergeDictP h (if h = .replace then [] else d1) d2)
+            (arrPolicy h a1 a2 (mergeArrP h a1 a2) ha1).1
+            (if d2.isEmpty then hd1 else true)
+            (arrPolicy h a1 a2 (mergeArrP h a1 a2) ha1).2
         | _ => so
       | .prim .nil => so
       | _ => v
@@ -180,11 +180,10 @@ def mergeValsF (h : Handling) (ft : Option Val) (old : Option Val) (v : Val) : V
       | .sub d2 a2 _ _ =>
         match so with
         | .sub d1 a1 hd1 ha1 =>
-          let d' := if d2.isEmpty then d1 else mergeDictF h ft (if h = .replace then [] else d1) d2
-          let hd' := if d2.isEmpty then hd1 else true
-          let o' := fieldOptsOverride h ft "*" (-1)
-          let (a', ha') := arrPolicy h a1 a2 (mergeArrF o'.1 o'.2 0 a1 a2) ha1
-          .sub d' a' hd' ha'
+          .sub (if d2.isEmpty then d1 else mergeDictF h ft (if h = .replace then [] else d1) d2)
+            (arrPolicy h a1 a2 (mergeArrF (fieldOptsOverride h ft "*" (-1)).1 (fieldOptsOverride h ft "*" (-1)).2 0 a1 a2) ha1).1
+            (if d2.isEmpty then hd1 else true)
+            (arrPolicy h a1 a2 (mergeArrF (fieldOptsOverride h ft "*" (-1)).1 (fieldOptsOverride h ft "*" (-1)).2 0 a1 a2) ha1).2
         | _ => so
       | .prim .nil => so
       | _ => v
@@ -193,16 +192,16 @@ def mergeDictF (h : Handling) (ft : Option Val) (d1 : Dict) (d2 : Dict) : Dict :
   match d2 with
   | [] => d1
   | (k, v) :: r =>
-    let o' := fieldOptsOverride h ft k (-1)
-    mergeDictF h ft (dset d1 k (store (dget d1 k) v (mergeValsF o'.1 o'.2 (dget d1 k) v))) r
+    mergeDictF h ft (dset d1 k (store (dget d1 k) v
+      (mergeValsF (fieldOptsOverride h ft k (-1)).1 (fieldOptsOverride h ft k (-1)).2 (dget d1 k) v))) r
 termination_by structural d2
 def mergeArrF (h : Handling) (ft : Option Val) (i : Nat) (a1 : List Val) (a2 : List Val) : List Val :=
   match a1, a2 with
   | a, [] => a
   | [], y :: b => cpy y :: cpyA b
   | x :: a, y :: b =>
-    let o' := fieldOptsOverride h ft "" i
-    store (some x) y (mergeValsF o'.1 o'.2 (some x) y) :: mergeArrF h ft (i+1) a b
+    store (some x) y (mergeValsF (fieldOptsOverride h ft "" i).1 (fieldOptsOverride h ft "" i).2 (some x) y)
+      :: mergeArrF h ft (i+1) a b
 termination_by structural a2
 end
 
